@@ -8,4 +8,9 @@ try:
     check.ensure_externs(['regex_syntax'])
 except Exception as e:
     print('note: regex_syntax not built: %s' % e)
+try:
+    import searcher
+    searcher.build(os.environ.get('VERIF_REPO', '/repo'))  # the replay searcher / bounded stand-in (cargo, offline); rebuilt by the checks when /repo changes
+except Exception as e:
+    print('note: searcher not built: %s' % e)
 print('setup ok')
